@@ -284,9 +284,10 @@ impl super::DebugSession {
                     .debugger
                     .as_mut()
                     .ok_or_else(|| anyhow!("continue: debugger not initialized"))?;
-                stop = dbg
-                    .continue_debugee_with_reason()
-                    .context("continue after exception filter")?;
+                stop = match dbg.continue_debugee_with_reason() {
+                    Ok(stop) => stop,
+                    Err(e) => return self.emit_resume_failure(e),
+                };
             }
 
             if let debugger::StopReason::Breakpoint(pid, addr) = stop
@@ -296,9 +297,10 @@ impl super::DebugSession {
                     .debugger
                     .as_mut()
                     .ok_or_else(|| anyhow!("continue: debugger not initialized"))?;
-                stop = dbg
-                    .continue_debugee_with_reason()
-                    .context("continue after breakpoint filter")?;
+                stop = match dbg.continue_debugee_with_reason() {
+                    Ok(stop) => stop,
+                    Err(e) => return self.emit_resume_failure(e),
+                };
                 continue;
             }
             break;
@@ -451,24 +453,26 @@ impl super::DebugSession {
             .ok_or_else(|| anyhow!("continue: debugger not initialized"))?;
         let stop = match dbg.continue_debugee_with_reason() {
             Ok(stop) => stop,
-            Err(e) => {
-                // already acknowledged: the failure is reported as a stop, so that the
-                // client does not keep believing the debuggee runs
-                self.begin_stop_epoch();
-                let thread_id = self.current_thread_id();
-                self.enqueue_event(InternalEvent::Output {
-                    category: "stderr",
-                    output: format!("continue failed: {e}\n"),
-                });
-                self.enqueue_event(InternalEvent::Stopped {
-                    reason: "exception".to_string(),
-                    thread_id,
-                    description: Some(format!("continue failed: {e}")),
-                });
-                return self.drain_events();
-            }
+            Err(e) => return self.emit_resume_failure(e),
         };
         self.emit_stop_reason(stop)
+    }
+
+    /// The resume was already acknowledged: its failure is reported as a stop, so that the
+    /// client does not keep believing the debuggee runs.
+    fn emit_resume_failure(&mut self, e: debugger::Error) -> anyhow::Result<()> {
+        self.begin_stop_epoch();
+        let thread_id = self.current_thread_id();
+        self.enqueue_event(InternalEvent::Output {
+            category: "stderr",
+            output: format!("continue failed: {e}\n"),
+        });
+        self.enqueue_event(InternalEvent::Stopped {
+            reason: "exception".to_string(),
+            thread_id,
+            description: Some(format!("continue failed: {e}")),
+        });
+        self.drain_events()
     }
 
     pub(super) fn handle_pause(&mut self, req: &DapRequest) -> anyhow::Result<()> {
